@@ -3,6 +3,7 @@ Lemmas about the hint-search model (SqiModel.Basis): loop invariants of the two 
 Core-only.
 -/
 import SqiModel.Basis
+set_option linter.unusedSimpArgs false
 
 namespace SqiProofs.Basis
 open SqiModel.Basis
@@ -129,18 +130,28 @@ theorem naOuter_spec (E : Env Fp) (hA : Add1Small E) (oc : Nat → Fp × Fp → 
               simp [naGood, hcand, this]
             · exact d k (by omega) hk'
 
-theorem naFromHint_of_cand (E : Env Fp) (tab : List (Fp × Fp)) (h : Nat) (x : Fp × Fp)
-    (hc : naCand E tab h = some x) : naFromHint E tab (h : Int) = .ok x := by
+/-- the guard of a table read is exactly "0 ≤ hint < 20" -/
+def GuardOK (g : Int → Bool) : Prop := ∀ h : Int, g h = true ↔ (0 ≤ h ∧ h < (NTAB : Int))
+
+theorem toDigit_nat (h : Nat) : toDigit (h : Int) = h := by
+  unfold toDigit
+  have : ¬ ((h : Int) < 0) := by omega
+  simp only [this, if_false, Int.toNat_natCast]
+
+theorem naFromHint_of_cand (E : Env Fp) (g : Int → Bool) (hg : GuardOK g) (tab : List (Fp × Fp)) (h : Nat) (x : Fp × Fp)
+    (hc : naCand E tab h = some x) : naFromHint E g tab (h : Int) = .ok x := by
   unfold naFromHint
   unfold naCand at hc
   by_cases hlt : h < NTAB
-  · have : ((h : Int) < (NTAB : Int)) := by exact_mod_cast hlt
+  · have : g (h : Int) = true := (hg h).mpr ⟨Int.natCast_nonneg _, by exact_mod_cast hlt⟩
     simp only [this, if_true]
     simp only [hlt, if_true] at hc
     exact readTab_of_get hc
-  · have : ¬ ((h : Int) < (NTAB : Int)) := by
-      intro hh; exact hlt (by exact_mod_cast hh)
-    simp only [this, if_false, Int.toNat_natCast]
+  · have hgf : g (h : Int) = false := by
+      cases hv : g (h : Int) with
+      | false => rfl
+      | true => exact absurd (by exact_mod_cast ((hg h).mp hv).2) hlt
+    simp only [hgf, Bool.false_eq_true, if_false, toDigit_nat h]
     simp only [hlt, if_false] at hc
     cases hc; rfl
 
@@ -265,12 +276,12 @@ theorem abOuter_spec (E : Env Fp) (hA : Add1Small E) (oc : Nat → Fp × Fp → 
               simp [abGood, hz, this]
             · exact d k (by omega) hk'
 
-theorem abFromHint_of_z2 (E : Env Fp) (mulAlpha : Fp × Fp → Fp × Fp) (ztab : List (Fp × Fp)) (h : Nat) (x : Fp × Fp)
-    (hc : (abZ2 E ztab h).map mulAlpha = some x) : abFromHint E mulAlpha ztab (h : Int) = .ok x := by
+theorem abFromHint_of_z2 (E : Env Fp) (g : Int → Bool) (hg : GuardOK g) (mulAlpha : Fp × Fp → Fp × Fp) (ztab : List (Fp × Fp)) (h : Nat) (x : Fp × Fp)
+    (hc : (abZ2 E ztab h).map mulAlpha = some x) : abFromHint E g mulAlpha ztab (h : Int) = .ok x := by
   unfold abFromHint
   unfold abZ2 at hc
   by_cases hlt : h < NTAB
-  · have : ((h : Int) < (NTAB : Int)) := by exact_mod_cast hlt
+  · have : g (h : Int) = true := (hg h).mpr ⟨Int.natCast_nonneg _, by exact_mod_cast hlt⟩
     simp only [this, if_true]
     simp only [hlt, if_true] at hc
     cases hg : ztab[h]? with
@@ -278,9 +289,11 @@ theorem abFromHint_of_z2 (E : Env Fp) (mulAlpha : Fp × Fp → Fp × Fp) (ztab :
     | some z =>
       simp only [hg, Option.map_some, Option.some.injEq] at hc
       rw [readTab_of_get hg]; simp only [hc]
-  · have : ¬ ((h : Int) < (NTAB : Int)) := by
-      intro hh; exact hlt (by exact_mod_cast hh)
-    simp only [this, if_false, Int.toNat_natCast]
+  · have hgf : g (h : Int) = false := by
+      cases hv : g (h : Int) with
+      | false => rfl
+      | true => exact absurd (by exact_mod_cast ((hg h).mp hv).2) hlt
+    simp only [hgf, Bool.false_eq_true, if_false, toDigit_nat h]
     simp only [hlt, if_false, Option.map_some, Option.some.injEq] at hc
     simp only [hc]
 
